@@ -105,7 +105,42 @@ def _run(ctx, fails, case, fn, *a, **k):
     return None
 
 
+def _inplace_history(case, ctx, fails):
+    """the SAME array object is edited in place (one node cut off) between two rounds of calls; the second answers must describe
+    the edited matrix (a result cache keyed on object identity or shape would return the first ones)"""
+    kind = case["kind"]
+    cut = case.get("cut")
+    W = np.array(case["W"], dtype=float)
+    n = len(W)
+    if cut is None or n <= cut or kind not in ("bin", "len"):
+        return
+    X = gen.layout(W.copy(), case.get("order"))
+    fns = [("distance_wei", lambda M: bct.distance_wei(M)[0]), ("distance_wei_floyd", lambda M: bct.distance_wei_floyd(M)[0])]
+    if kind == "bin":
+        fns += [("distance_bin", bct.distance_bin), ("reachdist", lambda M: bct.reachdist(M)[1]), ("breadthdist", lambda M: bct.breadthdist(M)[1])]
+    for _, f in fns:
+        ctx.call(f, X)
+    X[cut, :] = 0
+    X[:, cut] = 0
+    De = og.exact_sp(og.to_fraction_lengths(X))
+    Dref = _exact_to_float(De)
+    off = ~np.eye(n, dtype=bool)
+    for name, f in fns:
+        o = ctx.call(f, X)
+        if o.ok:
+            D = np.asarray(o.value, dtype=float)
+            if D.shape != Dref.shape or np.any((D != Dref) & off):
+                fails.append(Failure("%s:stale-answer-after-in-place-edit" % name, "same array object, node %d cut off in place" % cut, case))
+
+
 def check(case, ctx):
+    fails = _check(case, ctx)
+    if not fails:
+        _inplace_history(case, ctx, fails)
+    return fails
+
+
+def _check(case, ctx):
     kind = case["kind"]
     W = gen.layout(np.array(case["W"]), case.get("order"))
     n = len(W)
@@ -327,9 +362,9 @@ def cases(draw, nmax, kinds):
     order = draw(st.sampled_from(gen.ORDERS))
     if kind == "bin":
         W = A.astype(float) if draw(st.integers(0, 3)) else A.astype(np.int64)
-        return {"kind": kind, "W": W, "order": order}
+        return {"kind": kind, "W": W, "order": order, "cut": draw(st.integers(0, 2))}
     W = np.zeros((n, n))
-    case = {"kind": kind, "order": order}
+    case = {"kind": kind, "order": order, "cut": draw(st.integers(0, 2))}
     if kind == "len":
         if draw(st.booleans()):
             vals = [gen.TIE[k] for k in draw(st.lists(st.integers(0, 2), min_size=m, max_size=m))]
@@ -373,7 +408,7 @@ def _space(tier):
 
 def _exh_cases(tier, lo, hi):
     for n, d, A, k in _space(tier).range(lo, hi):
-        yield {"kind": "bin", "W": A.astype(float), "order": gen.ORDERS[k % len(gen.ORDERS)]}
+        yield {"kind": "bin", "W": A.astype(float), "order": gen.ORDERS[k % len(gen.ORDERS)], "cut": (k % 3 if k % 4 == 0 else None)}
 
 
 _WSP = {}
